@@ -146,6 +146,23 @@ pub(crate) fn must_ok<T>(r: Result<T, FrameDecoderError>, what: &'static str) {
     core::mem::forget(r);
     assert!(ok, "{}", what);
 }
+/// a decode call in a driver program: must succeed, and "Ok(true)" must mean the frame really is finished (all of it
+/// consumed, checksum included).  A violation ends the path: continuing would feed the decoder a symbolic block header.
+#[inline(never)]
+pub(crate) fn decode_step(dec: &mut FrameDecoder, src: &mut ArrSrc, strat: BlockDecodingStrategy) {
+    let r = dec.decode_blocks(src, strat);
+    let fin = match &r { Ok(b) => Some(*b), Err(_) => None };
+    core::mem::forget(r);
+    match fin {
+        None => { assert!(false, "decode failed on a valid frame"); nd::stop(); }
+        Some(f) => {
+            if f != dec.is_finished() {
+                assert!(false, "decode_blocks reports the frame finished but is_finished() disagrees (part of the frame, e.g. its checksum, is still unread)");
+                nd::stop();
+            }
+        }
+    }
+}
 
 fn check_content(out: &[u8; MAXC], n: usize, b: &Built) {
     assert!(n == b.clen, "decoded length differs from the content length");
@@ -339,9 +356,9 @@ pub(crate) fn run_program(sk: &Skel, chunk: usize, prog: &[Op]) {
     let mut s = 0;
     while s < prog.len() {
         match prog[s] {
-            Op::All => { if !dec.is_finished() { must_ok(dec.decode_blocks(&mut src, BlockDecodingStrategy::All), "decode failed"); } }
-            Op::Blocks(k) => { if !dec.is_finished() { must_ok(dec.decode_blocks(&mut src, BlockDecodingStrategy::UptoBlocks(k)), "decode failed"); } }
-            Op::Bytes(k) => { if !dec.is_finished() { must_ok(dec.decode_blocks(&mut src, BlockDecodingStrategy::UptoBytes(k)), "decode failed"); } }
+            Op::All => { if !dec.is_finished() { decode_step(&mut dec, &mut src, BlockDecodingStrategy::All); } }
+            Op::Blocks(k) => { if !dec.is_finished() { decode_step(&mut dec, &mut src, BlockDecodingStrategy::UptoBlocks(k)); } }
+            Op::Bytes(k) => { if !dec.is_finished() { decode_step(&mut dec, &mut src, BlockDecodingStrategy::UptoBytes(k)); } }
             Op::Collect => {
                 if let Some(v) = dec.collect() {
                     let mut j = 0; while j < v.len() { out[n + j] = v[j]; j += 1; }
@@ -370,7 +387,7 @@ pub(crate) fn run_program(sk: &Skel, chunk: usize, prog: &[Op]) {
         s += 1;
     }
     // finish the frame and drain the rest
-    if !dec.is_finished() { must_ok(dec.decode_blocks(&mut src, BlockDecodingStrategy::All), "decode failed"); }
+    if !dec.is_finished() { decode_step(&mut dec, &mut src, BlockDecodingStrategy::All); }
     check_finished(&dec, sk, &b, &src);
     n += ok_or_fail!(Read::read(&mut dec, &mut out[n..]), "read failed");
     assert!(dec.can_collect() == 0);
